@@ -143,19 +143,16 @@ func checkHdrBlockAt(w *core.Worker, m0 *gen.MsgSpec, hcap int, withPV bool, cut
 	for t := sipsp.HdrNone; t <= sipsp.HdrOther; t++ {
 		h := hl.GetHdr(t)
 		if t == sipsp.HdrNone || t == sipsp.HdrOther {
-			if h != nil {
-				return fail("first-of-type", fmt.Sprintf("GetHdr(%d) must be nil", t))
-			}
-			continue
-		}
-		if h == nil {
-			return fail("first-of-type", fmt.Sprintf("GetHdr(%s) returned nil", t))
+			continue // the statement speaks about the KNOWN types only; what these two return is open
 		}
 		if i, ok := first[int(t)]; ok {
+			if h == nil {
+				return fail("first-of-type", fmt.Sprintf("GetHdr(%s) returned nil although line %d is such a header", t, i))
+			}
 			if !cmpHdr(h, &m.Hdrs[i], fmt.Sprintf("GetHdr(%s) (first such header is line %d)", t, i)) {
 				return false
 			}
-		} else if !h.Missing() {
+		} else if h != nil && !h.Missing() { // (nil or a Missing() header: both say "none")
 			return fail("first-of-type", fmt.Sprintf("GetHdr(%s) is not Missing() although the block has no such header", t))
 		}
 	}
@@ -179,6 +176,7 @@ func RunC07(r *core.Run) {
 			o.Kinds = []int{gen.HOtherKind, gen.HNearMiss, gen.HVia, gen.HUA, gen.HRoute, gen.HRR, gen.HMaxFwd}
 			o.MaxHdrs = 30
 		}
+		o.TrailSemi = true
 		m := gen.Msg(rr, o)
 		nh := len(m.Hdrs)
 		caps := []int{0, 1, 2, nh - 1, nh, nh + 1, rr.Intn(nh + 2)}
@@ -464,7 +462,7 @@ func RunC05(r *core.Run) {
 		var in []byte
 		var nh, nc int
 		if rr.Intn(4) > 0 {
-			o := gen.MsgOpts{MinHdrs: 1, MaxHdrs: 12, MultiNA: 50}
+			o := gen.MsgOpts{MinHdrs: 1, MaxHdrs: 12, MultiNA: 50, TrailSemi: true}
 			if rr.Bool() {
 				o.Kinds = []int{gen.HContact, gen.HContact, gen.HPAI, gen.HPAI, gen.HFrom, gen.HFrom, gen.HTo, gen.HCSeq, gen.HCallID, gen.HVia, gen.HOtherKind, gen.HExpires}
 			}
